@@ -1024,6 +1024,236 @@ theorem text_leaf_ref {lower : Bytes → Bytes} {cv : Conv} {env : Env V T D S W
 
 end textleaf
 
+/-! ### query trees -/
+
+mutual
+/-- a property of every leaf of a query tree -/
+def RQuery.allLeaves (P : RLeaf V T W → Prop) : RQuery V T W → Prop
+  | .leaf l => P l
+  | .and qs => RQList.allLeaves P qs
+  | .or qs => RQList.allLeaves P qs
+def RQList.allLeaves (P : RLeaf V T W → Prop) : RQList V T W → Prop
+  | .nil => True
+  | .cons q qs => q.allLeaves P ∧ qs.allLeaves P
+end
+
+/-- no NaN among the values of the filter leaves and of the pre-filters (C02's exclusion) -/
+def RLeaf.Valid : RLeaf V T W → Prop
+  | .filt l => l.Valid
+  | .flat _ _ _ _ f => ∀ q, f = some q → q.Valid
+  | .text _ _ _ _ _ f => ∀ q, f = some q → q.Valid
+
+def RQuery.Valid (q : RQuery V T W) : Prop := q.allLeaves RLeaf.Valid
+
+mutual
+theorem allLeaves_imp {P Q : RLeaf V T W → Prop} (h : ∀ l, P l → Q l) : ∀ (q : RQuery V T W), q.allLeaves P → q.allLeaves Q
+  | .leaf l => by simp only [RQuery.allLeaves]; exact h l
+  | .and qs => by simp only [RQuery.allLeaves]; exact allLeavesL_imp h qs
+  | .or qs => by simp only [RQuery.allLeaves]; exact allLeavesL_imp h qs
+theorem allLeavesL_imp {P Q : RLeaf V T W → Prop} (h : ∀ l, P l → Q l) : ∀ (qs : RQList V T W), qs.allLeaves P → qs.allLeaves Q
+  | .nil => by simp [RQList.allLeaves]
+  | .cons q qs => by
+    simp only [RQList.allLeaves]
+    exact fun ⟨a, b⟩ => ⟨allLeaves_imp h q a, allLeavesL_imp h qs b⟩
+end
+
+mutual
+theorem allLeaves_and {P Q : RLeaf V T W → Prop} : ∀ (q : RQuery V T W), q.allLeaves P → q.allLeaves Q →
+    q.allLeaves (fun l => P l ∧ Q l)
+  | .leaf l => by simp only [RQuery.allLeaves]; exact fun a b => ⟨a, b⟩
+  | .and qs => by simp only [RQuery.allLeaves]; exact allLeavesL_and qs
+  | .or qs => by simp only [RQuery.allLeaves]; exact allLeavesL_and qs
+theorem allLeavesL_and {P Q : RLeaf V T W → Prop} : ∀ (qs : RQList V T W), qs.allLeaves P → qs.allLeaves Q →
+    qs.allLeaves (fun l => P l ∧ Q l)
+  | .nil => by simp [RQList.allLeaves]
+  | .cons q qs => by
+    simp only [RQList.allLeaves]
+    exact fun ⟨a, b⟩ ⟨c, d⟩ => ⟨allLeaves_and q a c, allLeavesL_and qs b d⟩
+end
+
+mutual
+theorem allLeaves_of_wf (rs : RState V T) (cv : Conv) : ∀ (q : RQuery V T W), q.wf rs cv = true →
+    q.allLeaves (fun l => l.wf rs cv = true)
+  | .leaf l => by simp only [RQuery.wf, RQuery.allLeaves]; exact id
+  | .and qs => by
+    simp only [RQuery.wf, RQuery.allLeaves, Bool.and_eq_true]
+    exact fun h => allLeavesL_of_wf rs cv qs h.2
+  | .or qs => by
+    simp only [RQuery.wf, RQuery.allLeaves, Bool.and_eq_true]
+    exact fun h => allLeavesL_of_wf rs cv qs h.2
+theorem allLeavesL_of_wf (rs : RState V T) (cv : Conv) : ∀ (qs : RQList V T W), qs.wf rs cv = true →
+    qs.allLeaves (fun l => l.wf rs cv = true)
+  | .nil => by simp [RQList.allLeaves]
+  | .cons q qs => by
+    simp only [RQList.wf, RQList.allLeaves, Bool.and_eq_true]
+    exact fun h => ⟨allLeaves_of_wf rs cv q h.1, allLeavesL_of_wf rs cv qs h.2⟩
+end
+
+section tree
+variable [DecidableEq T] [LT D] [DecidableLT D]
+variable (lower : Bytes → Bytes) (cv : Conv) (env : Env V T D S W) (orc : SOracle V T S) (rs : RState V T)
+
+/-- what the answer pipeline needs of a leaf answer: ranked ids are in the id set, each once, and every
+returned node id is live -/
+def LeafGood (sr : C06.SubResult S) : Prop :=
+  (∀ x ∈ sr.res, x.id ∈ sr.set) ∧ (sr.res.map (·.id)).Nodup ∧
+  ∀ n ∈ sr.set, ∃ u, C01.AL.get rs.base.shard.pts.nI n = some u
+
+mutual
+theorem noErr_of_leaves : ∀ (q : RQuery V T W), q.allLeaves (fun l => l.noErr lower cv env orc rs = true) →
+    q.noErr lower cv env orc rs = true
+  | .leaf l => by simp only [RQuery.allLeaves, RQuery.noErr]; exact id
+  | .and qs => by simp only [RQuery.allLeaves, RQuery.noErr]; exact noErrL_of_leaves qs
+  | .or qs => by simp only [RQuery.allLeaves, RQuery.noErr]; exact noErrL_of_leaves qs
+theorem noErrL_of_leaves : ∀ (qs : RQList V T W), qs.allLeaves (fun l => l.noErr lower cv env orc rs = true) →
+    qs.noErr lower cv env orc rs = true
+  | .nil => by simp [RQList.noErr]
+  | .cons q qs => by
+    simp only [RQList.allLeaves, RQList.noErr, Bool.and_eq_true]
+    exact fun ⟨a, b⟩ => ⟨noErr_of_leaves q a, noErrL_of_leaves qs b⟩
+end
+
+mutual
+theorem tree_good : ∀ (q : RQuery V T W), q.allLeaves (fun l => LeafGood rs (evalRLeaf lower cv env orc rs l)) →
+    C06.leavesWF (rtree lower cv env orc rs q) ∧
+    ∀ n, C06.inSetB (rtree lower cv env orc rs q) n = true → ∃ u, C01.AL.get rs.base.shard.pts.nI n = some u
+  | .leaf l => by
+    simp only [RQuery.allLeaves, rtree, C06.leavesWF, C06.inSetB, decide_eq_true_eq]
+    exact fun ⟨a, b, c⟩ => ⟨⟨a, b⟩, c⟩
+  | .and qs => by
+    simp only [RQuery.allLeaves, rtree, C06.leavesWF, C06.inSetB, Bool.false_eq_true, if_false, Bool.and_eq_true,
+      Bool.not_eq_true']
+    intro h
+    obtain ⟨a, _, c⟩ := forest_good qs h
+    exact ⟨a, fun n hn => c n hn.1 hn.2⟩
+  | .or qs => by
+    simp only [RQuery.allLeaves, rtree, C06.leavesWF, C06.inSetB, if_true]
+    intro h
+    obtain ⟨a, b, _⟩ := forest_good qs h
+    exact ⟨a, b⟩
+theorem forest_good : ∀ (qs : RQList V T W), qs.allLeaves (fun l => LeafGood rs (evalRLeaf lower cv env orc rs l)) →
+    C06.forestWF (rforest lower cv env orc rs qs) ∧
+    (∀ n, C06.anySetB (rforest lower cv env orc rs qs) n = true → ∃ u, C01.AL.get rs.base.shard.pts.nI n = some u) ∧
+    (∀ n, (rforest lower cv env orc rs qs).isNil = false → C06.allSetB (rforest lower cv env orc rs qs) n = true →
+      ∃ u, C01.AL.get rs.base.shard.pts.nI n = some u)
+  | .nil => by simp [rforest, C06.forestWF, C06.anySetB, C06.QForest.isNil]
+  | .cons q qs => by
+    simp only [RQList.allLeaves, rforest, C06.forestWF, C06.anySetB, C06.allSetB, Bool.or_eq_true, Bool.and_eq_true]
+    rintro ⟨h1, h2⟩
+    obtain ⟨a1, b1⟩ := tree_good q h1
+    obtain ⟨a2, b2, _⟩ := forest_good qs h2
+    exact ⟨⟨a1, a2⟩, fun n hn => hn.elim (b1 n) (b2 n), fun n _ hn => b1 n hn.1⟩
+end
+
+end tree
+
+/-! ### the whole of `SearchPoints` on a query tree with ranking leaves -/
+
+/-- every run-time choice the code leaves open is a legitimate one: enumerations and traversals are
+permutations, every sort returns a sorted permutation (`slices.SortFunc` is unstable; insertion sort is an
+instance) -/
+structure SOracle.OK (le : S → S → Prop) (sortOpts : List C06.SortOpt) (orc : SOracle V T S) : Prop where
+  enum_perm : ∀ l, (orc.enum l).Perm l
+  tord_perm : ∀ id l, (orc.tord id l).Perm l
+  tsort_perm : ∀ l, (orc.tsort l).Perm l
+  tsort_sorted : ∀ l, (orc.tsort l).Pairwise (fun a b => le b.score a.score)
+  hsort_perm : ∀ l, (orc.hsort l).Perm l
+  hsort_sorted : ∀ l, (orc.hsort l).Pairwise (fun a b => le b.hybrid a.hybrid)
+  hstable_perm : ∀ l, (orc.hstable l).Perm l
+  hstable_sorted : ∀ l, (orc.hstable l).Pairwise (fun a b => le b.hybrid a.hybrid)
+  row_perm : ∀ l, (orc.rowSort l).Perm l
+  row_sorted : ∀ l, (orc.rowSort l).Pairwise (fun a b => C06.sortCmp sortOpts a.data b.data ≤ 0)
+
+section pipeline
+variable [DecidableEq T] [LT D] [DecidableLT D]
+
+theorem rank_pipeline {lower : Bytes → Bytes} {cv : Conv} {env : Env V T D S W} {rs : RState V T}
+    (hI : Inv lower cv rs.base) (orc : SOracle V T S) (le : S → S → Prop) (rq : C06.Request) (hok : orc.OK le rq.sort)
+    (q : RQuery V T W) (hwf : q.wf rs cv = true) (hne : q.noErr lower cv env orc rs = true)
+    (hgood : q.allLeaves (fun l => LeafGood rs (evalRLeaf lower cv env orc rs l)))
+    (hsel : ∀ p ∈ rq.select, p ≠ [])
+    (off lim : Nat) (ho : rq.off = off) (hl : rq.lim = lim) (hoff : off < 2 ^ 63) (hlim : lim < 2 ^ 63) :
+    ∃ rows0 : List (C06.Row S),
+      rsearchPoints lower cv env orc rs q rq =
+        .rows (((rows0.drop off).take (if lim = 0 then rows0.length else lim)).map fun row =>
+          (uuidAt rs.base.shard.pts row.id, row.hybrid, row.data)) ∧
+      (∀ row ∈ rows0, C01.AL.get rs.base.shard.pts.nI row.id = some (uuidAt rs.base.shard.pts row.id)) ∧
+      (rows0.map fun row => uuidAt rs.base.shard.pts row.id).Nodup ∧
+      (rows0.map (·.id)).Nodup ∧
+      (∀ n, n ∈ rows0.map (·.id) ↔ C06.inSetB (rtree lower cv env orc rs q) n = true) ∧
+      (∀ row ∈ rows0, row.hybrid = C06.hybridSpec env.hadd (rtree lower cv env orc rs q) row.id ∧
+        C06.shape rq (selAt cv rs.base row.id) = .ok row.data) ∧
+      (rq.sort = [] → rows0.map (fun x => (x.id, x.hybrid)) =
+        (C06.backfill (rsearchIndex lower cv env orc rs q)).map (fun e => (e.id, e.hybrid))) ∧
+      (rq.sort = [] → q.isComposite = true → rows0.Pairwise (fun a b => C06.rankRel le a.hybrid b.hybrid)) ∧
+      (rq.sort ≠ [] → rows0.Pairwise (fun a b => C06.sortCmp rq.sort a.data b.data ≤ 0)) := by
+  have hp := hI.store.pts
+  obtain ⟨hwfT, hlive⟩ := tree_good lower cv env orc rs q hgood
+  obtain ⟨rows0, hfull, hnd, hmem, hrow, hnosort, hrank, hsorted⟩ :=
+    C06.C06_answer env.hadd le orc.hsort orc.hstable hok.hsort_perm hok.hsort_sorted hok.hstable_perm hok.hstable_sorted
+      rq orc.rowSort hok.row_perm hok.row_sorted (selAt cv rs.base) hsel (rtree lower cv env orc rs q) hwfT
+  obtain ⟨w1, w2, hset, _, _, _⟩ :=
+    C06.C06_tree env.hadd le orc.hsort orc.hstable hok.hsort_perm hok.hsort_sorted hok.hstable_perm hok.hstable_sorted
+      (rtree lower cv env orc rs q) hwfT
+  have hr : rsearchIndex lower cv env orc rs q = C06.evalTree env.hadd orc.hsort orc.hstable (rtree lower cv env orc rs q) := rfl
+  have hrowlive : ∀ row ∈ rows0, C01.AL.get rs.base.shard.pts.nI row.id = some (uuidAt rs.base.shard.pts row.id) := by
+    intro row hrw
+    obtain ⟨u, hu⟩ := hlive row.id ((hmem row.id).1 (List.mem_map.2 ⟨row, hrw, rfl⟩))
+    rw [hu, uuidAt_of hu]
+  obtain ⟨unranked, hB, _, _, hBmem, _⟩ := C06.C06_backfill _ w2 w1
+  have hget : ∃ l, C01.getAll rs.base.shard.pts ((C06.backfill (rsearchIndex lower cv env orc rs q)).map (·.id)) = .ok l := by
+    refine ⟨_, C01.getAll_eq rs.base.shard.pts _ ?_⟩
+    intro n hn
+    rw [hr] at hn
+    obtain ⟨u, hu⟩ := hlive n ((hset n).1 ((hBmem n).1 hn))
+    rw [hu]; rfl
+  obtain ⟨gl, hgl⟩ := hget
+  have hlen : rows0.length < 2 ^ 63 := by
+    have h1 : (rows0.map (·.id)).length < idBound := by
+      refine length_lt_of_nodup_range (by decide) hnd ?_
+      intro n hn
+      obtain ⟨u, hu⟩ := hlive n ((hmem n).1 hn)
+      have := hI.store.ctr.live_range n u hu
+      exact ⟨by omega, hI.liveBound n u hu⟩
+    simpa [idBound] using h1
+  have hpage := C06.C06_search_page (selAt cv rs.base) orc.rowSort _ rq rows0 hfull off lim ho hl hoff hlim hlen
+  have hcomp : q.isComposite = true → (rtree lower cv env orc rs q).isComposite = true := by
+    cases q <;> simp [RQuery.isComposite, rtree, C06.QTree.isComposite]
+  refine ⟨rows0, ?_, hrowlive, ?_, hnd, hmem, hrow, ?_, fun h1 h2 => hrank h1 (hcomp h2), hsorted⟩
+  · unfold rsearchPoints
+    simp only [hwf, hne, Bool.not_true, Bool.false_eq_true, if_false, hgl]
+    rw [hr]
+    cases hsp : C06.searchPoints (selAt cv rs.base) orc.rowSort true
+        (C06.evalTree env.hadd orc.hsort orc.hstable (rtree lower cv env orc rs q)) rq with
+    | selectError => rw [hsp] at hpage; cases hpage
+    | slicePanic => rw [hsp] at hpage; cases hpage
+    | rows pg =>
+      rw [hsp] at hpage
+      simp only [C06.outcomePage, Option.some.injEq] at hpage
+      subst hpage
+      show RAnswer.rows (List.filterMap _ _) = _
+      congr 1
+      apply filterMap_eq_map
+      intro row hrw
+      have hrw0 : row ∈ rows0 := List.mem_of_mem_drop (List.mem_of_mem_take hrw)
+      rw [hrowlive row hrw0]; rfl
+  · have : (rows0.map fun row => uuidAt rs.base.shard.pts row.id) = (rows0.map (·.id)).map (uuidAt rs.base.shard.pts) := by
+      simp [List.map_map, Function.comp_def]
+    rw [this]
+    apply C01.nodup_map_of_inj_on _ _ hnd
+    intro a ha b hb hab
+    obtain ⟨ra, hra, rfl⟩ := List.mem_map.1 ha
+    obtain ⟨rb, hrb, rfl⟩ := List.mem_map.1 hb
+    have h1 := hrowlive ra hra
+    have h2 := hrowlive rb hrb
+    rw [hab] at h1
+    have k1 := (hp.bij _ _).mpr h1
+    have k2 := (hp.bij _ _).mpr h2
+    rw [k1] at k2; exact Option.some.inj k2
+  · intro hs; rw [hr]; exact hnosort hs
+
+end pipeline
+
 end read
 
 end Sema.Compose
